@@ -10,6 +10,7 @@ place before the runner hands the ops to the Lean driver, where the verified che
 (`checkAlignment`, Props/C08.lean `C08_checker_sound_*`) examines each trace.  The canonical form never says
 which co-optimal trace came first: (score, n_traces, #valid, #rescored==score, #sound, distinct, count<=max).
 """
+import ast
 import functools
 import os
 import re
@@ -67,9 +68,268 @@ BIG = 2**31 - 2
 
 
 # ---------------------------------------------------------------- translator (Gen)
+class TieError(ValueError):
+    pass
+
+def _funcs(norm):
+    out, cur = {}, None
+    for line in norm.splitlines():
+        m = re.match(r"(?:def|cdef inline [\w.]+|cdef [\w.]+)\s+(\w+)\s*\(", line)
+        if m and not re.match(r"cdef (int|list|np\.\w+|uint8|int32|int64)\s+\w+\s*(,|$)", line):
+            cur = m.group(1); out[cur] = []
+        if cur is not None:
+            out[cur].append(line)
+    return out
+
+def _join_conditions(lines):
+    """merge continuation lines of if/elif/while headers (backslash or open parentheses) into one line"""
+    out, buf = [], None
+    for l in lines:
+        if buf is None:
+            if re.match(r"(if|elif|while)\b", l) and not l.endswith(":"):
+                buf = l.rstrip("\\").strip()
+            else:
+                out.append(l)
+        else:
+            buf += " " + l.rstrip("\\").strip()
+            if l.endswith(":"):
+                out.append(re.sub(r"\s+", " ", buf)); buf = None
+    return out
+
+def _cands(lines, names_re, table_re):
+    """assignments `name = table[i(-1)?, j(-1)?] (+ addend)?` with the governing if/else header"""
+    res, cond = [], ""
+    for l in lines:
+        if re.match(r"(if|elif) .*:$", l):
+            cond = re.sub(r"^(if|elif) ", "", l[:-1])
+        elif l == "else:":
+            cond = "else"
+        m = re.fullmatch(rf"({names_re}) = ({table_re})\[(i(?:-1)?),\s*(j(?:-1)?)\](?: \+ (.+))?", l)
+        if m:
+            res.append((m.group(1), m.group(2), -1 if m.group(3) == "i-1" else 0, -1 if m.group(4) == "j-1" else 0,
+                        m.group(5) or "", cond))
+        elif not re.match(r"(if|elif|else)", l):
+            cond = cond if re.match(rf"({names_re}) = ", l) else ""
+    return res
+
+def _extract_source_facts(SRC):
+    from common import extload
+    X = {}
+    pw = _funcs(extload.normalise_pyx(open(os.path.join(SRC, "biotite/sequence/align/pairwise.pyx")).read()))
+    tt = _funcs(extload.normalise_pyx(open(os.path.join(SRC, "biotite/sequence/align/tracetable.pyx")).read()))
+    for f in ("align_optimal", "_fill_align_table", "_fill_align_table_affine", "align_ungapped"):
+        if f not in pw: raise TieError(f"function {f} not found in pairwise.pyx")
+    for f in ("get_trace_linear", "get_trace_affine", "follow_trace"):
+        if f not in tt: raise TieError(f"function {f} not found in tracetable.pyx")
+    ao = _join_conditions(pw["align_optimal"])
+    # --- defaults (signature)
+    sig = " ".join(pw["align_optimal"][:4])
+    sig = sig[:sig.index("):") + 1]
+    X["defaults_align_optimal"] = re.findall(r"(\w+)=([^,)]+)", sig)
+    sigu = " ".join(pw["align_ungapped"][:3]); sigu = sigu[:sigu.index("):") + 1]
+    X["defaults_align_ungapped"] = re.findall(r"(\w+)=([^,)]+)", sigu)
+    # --- argument checks in order: (condition, exception class), up to the table allocation
+    checks, cond = [], None
+    for l in ao:
+        if l.startswith("trace_table = np.zeros"):
+            break
+        m = re.match(r"(if|elif) (.*):$", l)
+        if m: cond = m.group(2)
+        elif l == "else:": cond = "else"
+        m = re.match(r"raise (\w+)\(", l)
+        if m: checks.append((cond, m.group(1)))
+    X["arg_checks"] = checks
+    X["gap_kind_tests"] = [l for l in ao if re.match(r"(if|elif) type\(gap_penalty\)", l)]
+    # --- tables: allocations, neg_inf, initialisation, start selection, traceback bookkeeping (statements, in order)
+    X["alloc"] = [l for l in ao if re.match(r"(trace_table|score_table|m_table|g1_table|g2_table) = np\.(zeros|full)", l)]
+    X["neg_inf"] = [l for l in ao if "neg_inf" in l and not re.match(r"(m_table|g1_table|g2_table)", l)] + \
+                   [l for l in ao if re.match(r"(if min_score|min_score =)", l)]
+    X["init"] = [l for l in ao if re.match(r"(trace_table|score_table|m_table|g1_table|g2_table)\s*\[", l)]
+    X["starts"] = [l for l in ao if re.match(r"(max_score =|i_list, j_list = np\.where|state_list = np\.(append|zeros|full)|if (m|g1|g2)_table\[i_start,j_start\] == max_score:|i_start = |j_start = )", l)]
+    X["traceback"] = [l for l in ao if re.match(r"(curr_trace_count = |trace_list = trace_list\[|trace = np\.full|state=|max_trace_count=|trace_table, False, i_start, j_start, 0, trace, trace_list,)", l)]
+    # --- linear fill
+    fl = pw["_fill_align_table"]
+    X["fill_lin_loops"] = [m.groups() for l in fl for m in [re.fullmatch(r"for (\w) in range\((\d+), (\w+)\.shape\[(\d)\]\):", l)] if m]
+    X["fill_lin_max"] = [l for l in fl if re.match(r"[ij]_max = ", l)]
+    X["fill_lin_cands"] = _cands(fl, r"from_\w+", r"score_table")
+    X["fill_lin_floor"] = [l for l in fl if "score <= 0" in l or "score < 0" in l or re.match(r"if local", l) or l in ("continue", "term_penalty = True")]
+    X["fill_lin_call"] = [l for l in fl if "get_trace_linear(" in l] + [l for l in fl if re.match(r"(score_table|trace_table)\[i,j\] = ", l)]
+    # --- affine fill
+    fa = _join_conditions(pw["_fill_align_table_affine"])
+    X["fill_aff_loops"] = [m.groups() for l in fa for m in [re.fullmatch(r"for (\w) in range\((\d+), (\w+)\.shape\[(\d)\]\):", l)] if m]
+    X["fill_aff_max"] = [l for l in fa if re.match(r"[ij]_max = ", l)]
+    X["fill_aff_cands"] = _cands(fa, r"\w+_score", r"m_table|g1_table|g2_table")
+    X["fill_aff_sim"] = [l for l in fa if l.startswith("similarity_score = ")]
+    # floors: `if X_score <= 0:` followed by the cleared masks until `)`; then else branch assignment
+    floors, i = [], 0
+    while i < len(fa):
+        m = re.fullmatch(r"if (\w+_score) (<=|<|>=|>) (-?\d+):", fa[i])
+        if m:
+            names, j = [], i + 1
+            while j < len(fa) and fa[j] != ")":
+                names += re.findall(r"TraceDirectionAffine\.(\w+)", fa[j]); j += 1
+            floors.append((m.group(1), m.group(2), m.group(3), names))
+            i = j
+        i += 1
+    X["fill_aff_floors"] = floors
+    X["fill_aff_call"] = [l for l in fa if re.match(r"(mm_score, g1m_score, g2m_score,|mg1_score, g1g1_score,|mg2_score, g2g2_score,|&m_score, &g1_score, &g2_score)", l)] + \
+                         [l for l in fa if re.match(r"(m_table|g1_table|g2_table|trace_table)\[i,j\] = ", l)]
+    # --- follow_trace
+    ft = tt["follow_trace"]
+    X["ft_pred"] = [l for l in ft if re.match(r"[ij]_match, [ij]_gap_left, [ij]_gap_top = ", l)]
+    X["ft_seq"] = [l for l in ft if re.match(r"seq_[ij] = ", l)]
+    lin_dirs, aff_dirs = [], []
+    for k, l in enumerate(ft):
+        m = re.fullmatch(r"if trace_value & TraceDirectionLinear\.(\w+):", l)
+        if m:
+            a = re.fullmatch(r"next_indices\.append\(\((\w+), (\w+)\)\)", ft[k + 1])
+            if not a: raise TieError("follow_trace: linear direction without next_indices.append")
+            lin_dirs.append((m.group(1), a.group(1), a.group(2)))
+        m = re.fullmatch(r"if trace_value & TraceDirectionAffine\.(\w+):", l)
+        if m:
+            a = re.fullmatch(r"next_indices\.append\(\((\w+), (\w+)\)\)", ft[k + 1])
+            b = re.fullmatch(r"next_states\.append\(TraceState\.(\w+)\)", ft[k + 2])
+            if not a or not b: raise TieError("follow_trace: affine transition without append pair")
+            aff_dirs.append((m.group(1), a.group(1), a.group(2), b.group(1)))
+    X["ft_lin_dirs"], X["ft_aff_dirs"] = lin_dirs, aff_dirs
+    X["ft_branch"] = [l for l in ft if re.match(r"(for k in range\(|if curr_trace_count\[0\]|curr_trace_count\[0\] \+= |i, j = next_indices\[|state = next_states\[|new_i, new_j = |new_state = |while trace_table\[i,j\] != 0:|trace\[pos, [01]\] = |pos \+= )", l)]
+    # masks used per state: `trace_value = trace_table[i,j] & (` blocks
+    masks, i = [], 0
+    while i < len(ft):
+        if ft[i] == "trace_value = trace_table[i,j] & (":
+            names, j = [], i + 1
+            while ft[j] != ")":
+                names += re.findall(r"TraceDirectionAffine\.(\w+)", ft[j]); j += 1
+            masks.append(names); i = j
+        i += 1
+    X["ft_state_masks"] = masks
+    X["ft_state_tests"] = re.findall(r"state == TraceState\.(\w+)", " ".join(ft))
+    # --- get_trace_linear / affine: the decision structure, statement by statement
+    X["get_trace_linear"] = tt["get_trace_linear"][5:] if False else [l for l in tt["get_trace_linear"] if not l.startswith(("cdef", "np.")) and "max_score)" not in l]
+    X["get_trace_affine"] = [l for l in tt["get_trace_affine"] if re.match(r"(if|elif|else|trace|max_)", l) or l in ("TraceDirectionAffine.MATCH_TO_MATCH |",) or l.startswith("TraceDirectionAffine.") or l == ")"]
+    # --- alignment.py / matrix.py through ast
+    at = ast.parse(open(os.path.join(SRC, "biotite/sequence/align/alignment.py")).read())
+    fn = {n.name: n for n in at.body if isinstance(n, ast.FunctionDef)}
+    for f in ("score", "find_terminal_gaps", "get_codes"):
+        if f not in fn: raise TieError(f"function {f} not found in alignment.py")
+    def defaults(f):
+        a = f.args
+        names = [x.arg for x in a.args][len(a.args) - len(a.defaults):]
+        return [(n, ast.unparse(d)) for n, d in zip(names, a.defaults)]
+    X["defaults_score"] = defaults(fn["score"])
+    sc = fn["score"]
+    ifs = [n for n in ast.walk(sc) if isinstance(n, ast.If)]
+    X["score_ifs"] = [ast.unparse(n.test) for n in ifs]
+    aug = [(ast.unparse(n.target), type(n.op).__name__, ast.unparse(n.value)) for n in ast.walk(sc) if isinstance(n, ast.AugAssign)]
+    X["score_augassign"] = aug
+    X["score_assign"] = [ast.unparse(n) for n in ast.walk(sc) if isinstance(n, ast.Assign) and any(isinstance(t, ast.Name) and t.id in ("gap_open", "gap_ext", "in_gap", "start_index", "stop_index") for t in n.targets)] + \
+                        [ast.unparse(n) for n in ast.walk(sc) if isinstance(n, ast.Assign) and isinstance(n.targets[0], ast.Tuple)]
+    X["score_raises"] = [ast.unparse(n.exc.func) for n in ast.walk(sc) if isinstance(n, ast.Raise)]
+    ftg = fn["find_terminal_gaps"]
+    X["ftg_return"] = [ast.unparse(n.value) for n in ast.walk(ftg) if isinstance(n, ast.Return)]
+    X["ftg_assign"] = [ast.unparse(n) for n in ftg.body if isinstance(n, ast.Assign)]
+    X["get_codes_assign"] = [ast.unparse(n) for n in ast.walk(fn["get_codes"]) if isinstance(n, (ast.Assign,)) ]
+    mt = ast.parse(open(os.path.join(SRC, "biotite/sequence/align/matrix.py")).read())
+    cls = [n for n in mt.body if isinstance(n, ast.ClassDef) and n.name == "SubstitutionMatrix"]
+    if not cls: raise TieError("class SubstitutionMatrix not found")
+    init = [n for n in cls[0].body if isinstance(n, ast.FunctionDef) and n.name == "__init__"][0]
+    X["matrix_init_tests"] = [ast.unparse(n.test) for n in ast.walk(init) if isinstance(n, ast.If)]
+    X["matrix_init_raises"] = [ast.unparse(n.exc.func) for n in ast.walk(init) if isinstance(n, ast.Raise)]
+    X["matrix_astype"] = [ast.unparse(n) for n in ast.walk(init) if isinstance(n, ast.Assign) and "astype" in ast.unparse(n)]
+    fill = [n for n in cls[0].body if isinstance(n, ast.FunctionDef) and n.name == "_fill_with_matrix_dict"][0]
+    X["matrix_fill_dict"] = [ast.unparse(n) for n in fill.body]
+    dfs = [n for n in cls[0].body if isinstance(n, ast.FunctionDef) and n.name == "dict_from_str"][0]
+    X["matrix_dict_from_str"] = [ast.unparse(n) for n in dfs.body if not isinstance(n, ast.Expr)]
+    return X
+
+
+
+def _trace_fn_to_lean(SRC, name, params, enum_vals):
+    """transliterate the body of tracetable.pyx `get_trace_linear` / `get_trace_affine` (plain Python apart from the
+    cdef header) into a Lean expression: every top-level `if` tree yields (bits, maximum)"""
+    raw = open(os.path.join(SRC, "biotite/sequence/align/tracetable.pyx")).read()
+    m = re.search(r"^cdef inline np\.uint8_t " + name + r"\((.*?)\):\n(.*?)(?=^\S)", raw, re.S | re.M)
+    if not m:
+        raise TieError(f"{name} not found in tracetable.pyx")
+    body = m.group(2)
+    import textwrap
+    tree = ast.parse(textwrap.dedent(body))
+    stmts = [s for s in tree.body if not (isinstance(s, ast.Expr) and isinstance(s.value, ast.Constant))]
+    if not stmts or not isinstance(stmts[-1], ast.Return) or ast.unparse(stmts[-1].value) != "trace":
+        raise TieError(f"{name}: last statement is not `return trace`")
+    ops = {ast.Gt: ">", ast.Lt: "<", ast.Eq: "=", ast.GtE: "≥", ast.LtE: "≤"}
+
+    def bits(e):
+        if isinstance(e, ast.BinOp) and isinstance(e.op, ast.BitOr):
+            return bits(e.left) | bits(e.right)
+        if isinstance(e, ast.Attribute) and e.attr in enum_vals:
+            return enum_vals[e.attr]
+        raise TieError(f"{name}: unexpected trace value {ast.unparse(e)}")
+
+    def leaf(ss, first):
+        b, mx = None, None
+        for s in ss:
+            if isinstance(s, ast.Assign) and ast.unparse(s.targets[0]) == "trace" and first:
+                b = bits(s.value)
+            elif isinstance(s, ast.AugAssign) and ast.unparse(s.target) == "trace" and isinstance(s.op, ast.BitOr) and not first:
+                b = bits(s.value)
+            elif isinstance(s, ast.Assign) and isinstance(s.targets[0], ast.Subscript) and isinstance(s.value, ast.Name):
+                mx = (ast.unparse(s.targets[0]), s.value.id)
+            else:
+                raise TieError(f"{name}: unexpected statement {ast.unparse(s)}")
+        if b is None or mx is None:
+            raise TieError(f"{name}: a branch does not set both trace and the maximum")
+        return b, mx
+
+    outs = []
+
+    def expr(node, first):
+        if len(node) == 1 and isinstance(node[0], ast.If):
+            n = node[0]
+            t = n.test
+            if not (isinstance(t, ast.Compare) and len(t.ops) == 1 and type(t.ops[0]) in ops and
+                    isinstance(t.left, ast.Name) and isinstance(t.comparators[0], ast.Name)):
+                raise TieError(f"{name}: unexpected condition {ast.unparse(t)}")
+            c = f"{t.left.id} {ops[type(t.ops[0])]} {t.comparators[0].id}"
+            if not n.orelse:
+                raise TieError(f"{name}: `if` without else")
+            return f"(if {c} then {expr(n.body, first)} else {expr(n.orelse, first)})"
+        b, mx = leaf(node, first)
+        outs.append(mx[0])
+        return f"(({b} : Nat), {mx[1]})"
+    parts, targets = [], []
+    for k, s in enumerate(stmts[:-1]):
+        if not isinstance(s, ast.If):
+            raise TieError(f"{name}: unexpected top-level statement {ast.unparse(s)}")
+        outs.clear()
+        parts.append(expr([s], k == 0))
+        if len(set(outs)) != 1:
+            raise TieError(f"{name}: one decision tree writes several maxima {set(outs)}")
+        targets.append(outs[0])
+    got_params = [p.strip().split()[-1].lstrip("*") for p in m.group(1).split(",")]
+    if got_params[:len(params)] != params:
+        raise TieError(f"{name}: parameters {got_params}")
+    return parts, targets, got_params
+
+
+def _lean_lit(v):
+    if isinstance(v, bool):
+        return "true" if v else "false"
+    if isinstance(v, int):
+        return f"({v})" if v < 0 else str(v)
+    if isinstance(v, str):
+        return '"' + v.replace("\\", "\\\\").replace('"', '\\"') + '"'
+    if isinstance(v, tuple):
+        return "(" + ", ".join(_lean_lit(x) for x in v) + ")"
+    if isinstance(v, list):
+        return "[" + ", ".join(_lean_lit(x) for x in v) + "]"
+    raise TypeError(v)
+
+
 def gen_lean():
     from common import paths
-    src = open(os.path.join(paths.SRC, "biotite/sequence/align/tracetable.pxd")).read()
+    SRC = paths.SRC
+    src = open(os.path.join(SRC, "biotite/sequence/align/tracetable.pxd")).read()
 
     def enum(name):
         m = re.search(r"cdef enum " + name + r":(.*?)(?=\n\S|\Z)", src, re.S)
@@ -80,17 +340,69 @@ def gen_lean():
             raise ValueError(f"enum {name} has no members")
         return items
     lin, aff, st = enum("TraceDirectionLinear"), enum("TraceDirectionAffine"), enum("TraceState")
-    pyx = open(os.path.join(paths.SRC, "biotite/sequence/align/pairwise.pyx")).read()
+    pyx = open(os.path.join(SRC, "biotite/sequence/align/pairwise.pyx")).read()
     m = re.search(r"trace_table = np\.zeros\(\( len\(seq1\)\+1, len\(seq2\)\+1 \), dtype=np\.(\w+)\)", pyx)
     if not m:
         raise ValueError("trace_table allocation not found in pairwise.pyx")
     bits = {"uint8": 8, "uint16": 16, "uint32": 32, "uint64": 64}.get(m.group(1))
     if bits is None:
         raise ValueError("unexpected trace_table dtype " + m.group(1))
+    X = _extract_source_facts(SRC)
+    lin_parts, lin_tg, lin_params = _trace_fn_to_lean(
+        SRC, "get_trace_linear", ["match_score", "gap_left_score", "gap_top_score"], {n: int(v) for n, v in lin})
+    aff_parts, aff_tg, aff_params = _trace_fn_to_lean(
+        SRC, "get_trace_affine", ["match_to_match_score", "gap_left_to_match_score", "gap_top_to_match_score",
+                                  "match_to_gap_left_score", "gap_left_to_gap_left_score", "match_to_gap_top_score",
+                                  "gap_top_to_gap_top_score"], {n: int(v) for n, v in aff})
+    if len(lin_parts) != 1 or len(aff_parts) != 3:
+        raise TieError(f"get_trace_linear/affine: {len(lin_parts)}/{len(aff_parts)} decision trees (expected 1/3)")
 
     def lst(items):
         return "[" + ", ".join(f'("{n}", {v})' for n, v in items) + "]"
-    body = ["/- REGENERATED on every run by harness/props/c08.py from sequence/align/tracetable.pxd and pairwise.pyx. Do not edit. -/",
+    S = "String"
+    typed = [  # (Lean name, Lean type, value, doc)
+        ("defaultsAlignOptimal", f"List ({S} × {S})", [tuple(x) for x in X["defaults_align_optimal"]], "keyword defaults of `align_optimal`"),
+        ("defaultsAlignUngapped", f"List ({S} × {S})", [tuple(x) for x in X["defaults_align_ungapped"]], "keyword defaults of `align_ungapped`"),
+        ("defaultsScore", f"List ({S} × {S})", [tuple(x) for x in X["defaults_score"]], "keyword defaults of `align.score`"),
+        ("argChecks", f"List ({S} × {S})", [tuple(x) for x in X["arg_checks"]], "argument checks of `align_optimal` in source order: (condition, exception class)"),
+        ("gapKindTests", f"List {S}", X["gap_kind_tests"], "how linear / affine penalties are told apart"),
+        ("alloc", f"List {S}", X["alloc"], "table allocations (shape, fill value, dtype)"),
+        ("negInf", f"List {S}", X["neg_inf"], "the pseudo minus infinity"),
+        ("tableInit", f"List {S}", X["init"], "first row / column initialisation statements in source order"),
+        ("startSelection", f"List {S}", X["starts"], "start cells / states of the traceback"),
+        ("tracebackCalls", f"List {S}", X["traceback"], "counter start, follow_trace arguments, final truncation"),
+        ("fillLinLoops", f"List ({S} × {S} × {S} × {S})", [tuple(x) for x in X["fill_lin_loops"]], "loop domains of `_fill_align_table`"),
+        ("fillLinMax", f"List {S}", X["fill_lin_max"], "last row / column"),
+        ("fillLinCands", f"List ({S} × {S} × Int × Int × {S} × {S})", [tuple(x) for x in X["fill_lin_cands"]], "(candidate, table, di, dj, addend, governing condition)"),
+        ("fillLinFloor", f"List {S}", X["fill_lin_floor"], "local: penalties forced on, floor at zero"),
+        ("fillLinStore", f"List {S}", X["fill_lin_call"], "call of get_trace_linear and the stores"),
+        ("fillAffLoops", f"List ({S} × {S} × {S} × {S})", [tuple(x) for x in X["fill_aff_loops"]], "loop domains of `_fill_align_table_affine`"),
+        ("fillAffMax", f"List {S}", X["fill_aff_max"], "last row / column"),
+        ("fillAffCands", f"List ({S} × {S} × Int × Int × {S} × {S})", [tuple(x) for x in X["fill_aff_cands"]], "(candidate, table, di, dj, addend, governing condition)"),
+        ("fillAffSim", f"List {S}", X["fill_aff_sim"], "similarity lookup"),
+        ("fillAffFloors", f"List ({S} × {S} × {S} × List {S})", [tuple(x) for x in X["fill_aff_floors"]], "local floors: (score, operator, bound, cleared trace bits)"),
+        ("fillAffStore", f"List {S}", X["fill_aff_call"], "arguments of get_trace_affine and the stores"),
+        ("followPred", f"List {S}", X["ft_pred"], "predecessor indices in follow_trace (banded, plain, banded, plain)"),
+        ("followSeqIdx", f"List {S}", X["ft_seq"], "sequence indices written into the trace"),
+        ("followLinDirs", f"List ({S} × {S} × {S})", [tuple(x) for x in X["ft_lin_dirs"]], "order in which the linear trace bits are examined"),
+        ("followAffDirs", f"List ({S} × {S} × {S} × {S})", [tuple(x) for x in X["ft_aff_dirs"]], "order of the affine transitions: (bit, i, j, next state)"),
+        ("followBranch", f"List {S}", X["ft_branch"], "loop / branching / counter statements of follow_trace"),
+        ("followStateMasks", f"List (List {S})", X["ft_state_masks"], "bits examined in MATCH / GAP_LEFT / GAP_TOP state"),
+        ("scoreIfs", f"List {S}", X["score_ifs"], "`if` tests of align.score in ast order"),
+        ("scoreAugAssign", f"List ({S} × {S} × {S})", [tuple(x) for x in X["score_augassign"]], "`score += …` statements"),
+        ("scoreAssign", f"List {S}", X["score_assign"], "gap_open / gap_ext / in_gap / slice assignments"),
+        ("scoreRaises", f"List {S}", X["score_raises"], "exception classes raised by align.score"),
+        ("ftgReturn", f"List {S}", X["ftg_return"], "`return` of find_terminal_gaps"),
+        ("ftgAssign", f"List {S}", X["ftg_assign"], "assignments of find_terminal_gaps"),
+        ("getCodesAssign", f"List {S}", X["get_codes_assign"], "assignments of get_codes"),
+        ("matrixInitTests", f"List {S}", X["matrix_init_tests"], "`if` tests of SubstitutionMatrix.__init__"),
+        ("matrixInitRaises", f"List {S}", X["matrix_init_raises"], "exception classes of SubstitutionMatrix.__init__"),
+        ("matrixAstype", f"List {S}", X["matrix_astype"], "dtype conversion of the score matrix"),
+        ("matrixFillDict", f"List {S}", X["matrix_fill_dict"], "_fill_with_matrix_dict, statement by statement"),
+        ("matrixDictFromStr", f"List {S}", X["matrix_dict_from_str"], "dict_from_str, statement by statement"),
+    ]
+    body = ["/- REGENERATED on every run by harness/props/c08.py from sequence/align/{tracetable.pxd, tracetable.pyx, pairwise.pyx,",
+            "   alignment.py, matrix.py}. Do not edit. -/",
             "namespace BiotiteModel.Gen.C08",
             "/-- `TraceDirectionLinear` members: (name, bit value). -/",
             "def traceLinear : List (String × Nat) := " + lst(lin),
@@ -99,8 +411,19 @@ def gen_lean():
             "/-- `TraceState` members. -/",
             "def traceState : List (String × Nat) := " + lst(st),
             "/-- bit width of the `trace_table` dtype in `align_optimal`. -/",
-            f"def traceTableBits : Nat := {bits}",
-            "end BiotiteModel.Gen.C08", ""]
+            f"def traceTableBits : Nat := {bits}"]
+    for name, ty, val, doc in typed:
+        body += [f"/-- {doc} -/", f"def {name} : {ty} := {_lean_lit(val)}"]
+    body += ["/-- `get_trace_linear`, transliterated from tracetable.pyx: (trace bits, maximum). -/",
+             "def getTraceLinear (" + " ".join(lin_params[:3]) + " : Int) : Nat × Int :=",
+             "  " + lin_parts[0],
+             "/-- `get_trace_affine`, transliterated: the three decision trees (match, gap-left, gap-top table):",
+             "(bits contributed, maximum written to " + ", ".join(aff_tg) + "). -/"]
+    for k, nm in enumerate(["getTraceAffineM", "getTraceAffineG1", "getTraceAffineG2"]):
+        body += [f"def {nm} (" + " ".join(aff_params[:7]) + " : Int) : Nat × Int :=", "  " + aff_parts[k]]
+    body += ["/-- the output slots of `get_trace_affine` in the order the trees write them -/",
+             "def getTraceAffineTargets : List String := " + _lean_lit(aff_tg),
+             "end BiotiteModel.Gen.C08", ""]
     return {"BiotiteModel/Gen/C08.lean": "\n".join(body)}
 
 
